@@ -380,4 +380,113 @@ theorem ensureInst_single {id : Nat} {s t : Sch} (h : ensureInst [id] s = .ok t)
             simp only [afterResume, afterSuspend]
             omega
 
+/-! ### what `process_io` can change -/
+
+theorem mem_minsert_sub {α : Type} (k : Nat) (v : α) (l : List (Nat × α)) (p : Nat × α)
+    (h : p ∈ minsert k v l) : p = (k, v) ∨ p ∈ l := by
+  induction l with
+  | nil => simp [minsert] at h; exact .inl h
+  | cons q l ih =>
+    obtain ⟨k', v'⟩ := q
+    unfold minsert at h
+    by_cases h1 : k < k'
+    · simp only [h1, if_true, List.mem_cons] at h
+      rcases h with h | h | h
+      · exact .inl h
+      · exact .inr (by simp [h])
+      · exact .inr (by simp [h])
+    · by_cases h2 : k = k'
+      · subst h2
+        simp only [Nat.lt_irrefl, if_false, if_true, List.mem_cons] at h
+        rcases h with h | h
+        · exact .inl h
+        · exact .inr (by simp [h])
+      · simp only [h1, h2, if_false, List.mem_cons] at h
+        rcases h with h | h
+        · exact .inr (by simp [h])
+        · rcases ih h with e | e
+          · exact .inl e
+          · exact .inr (by simp [e])
+
+/-- what `process_io` may write into `states`: `Runnable`, or a `WaitForWrite` -/
+def IoWritten (st : VmState) : Prop := st = .runnable ∨ ∃ fd c len, st = .waitWrite fd c len
+
+/-- `t` differs from `s` only by VM swapping and by states `process_io` may write -/
+def IoStep (s t : Sch) : Prop :=
+  t.total = s.total ∧ t.nextVm = s.nextVm ∧ t.nextFd = s.nextFd ∧ t.fds = s.fds ∧
+  t.inherited = s.inherited ∧ t.term = s.term ∧
+  ∀ p ∈ t.states, p ∈ s.states ∨ IoWritten p.2
+
+theorem IoStep.refl (s : Sch) : IoStep s s := ⟨rfl, rfl, rfl, rfl, rfl, rfl, fun _ h => .inl h⟩
+
+theorem IoStep.trans {a b c : Sch} (h1 : IoStep a b) (h2 : IoStep b c) : IoStep a c := by
+  obtain ⟨a1, a2, a3, a4, a5, a6, a7⟩ := h1
+  obtain ⟨b1, b2, b3, b4, b5, b6, b7⟩ := h2
+  refine ⟨b1.trans a1, b2.trans a2, b3.trans a3, b4.trans a4, b5.trans a5, b6.trans a6, ?_⟩
+  intro p hp
+  rcases b7 p hp with h | h
+  · exact a7 p h
+  · exact .inr h
+
+theorem IoStep.ofCore {s t : Sch} (h : SameCore s t) : IoStep s t := by
+  obtain ⟨c1, c2, c3, c4, c5, c6, c7⟩ := h
+  exact ⟨c1, c2, c3, c5, c6, c7, fun p hp => .inl (by rw [← c4]; exact hp)⟩
+
+theorem IoStep.insert (s : Sch) (vm : Nat) (st : VmState) (h : IoWritten st) :
+    IoStep s { s with states := minsert vm st s.states } :=
+  ⟨rfl, rfl, rfl, rfl, rfl, rfl, fun p hp => by
+    rcases mem_minsert_sub vm st s.states p hp with e | e
+    · exact .inr (by rw [e]; exact h)
+    · exact .inl e⟩
+
+theorem serveClosed_ioStep : ∀ (l : List Nat) (s t : Sch), serveClosed l s = .ok t → IoStep s t := by
+  intro l
+  induction l with
+  | nil => intro s t h; simp [serveClosed] at h; rw [← h]; exact IoStep.refl s
+  | cons vm rest ih =>
+    intro s t h
+    unfold serveClosed at h
+    split at h
+    · split at h
+      · cases h
+      · rename_i s1 he
+        exact ((IoStep.ofCore (ensureInst_core he)).trans (IoStep.insert s1 vm .runnable (.inl rfl))).trans (ih _ t h)
+    · split at h
+      · cases h
+      · rename_i s1 he
+        exact ((IoStep.ofCore (ensureInst_core he)).trans (IoStep.insert s1 vm .runnable (.inl rfl))).trans (ih _ t h)
+    · exact ih s t h
+
+theorem servePairs_ioStep : ∀ (l : List Pair) (s t : Sch), servePairs l s = .ok t → IoStep s t := by
+  intro l
+  induction l with
+  | nil => intro s t h; simp [servePairs] at h; rw [← h]; exact IoStep.refl s
+  | cons p rest ih =>
+    intro s t h
+    unfold servePairs at h
+    split at h
+    · cases h
+    · rename_i s1 he
+      simp only at h
+      refine (IoStep.ofCore (ensureInst_core he)).trans (IoStep.trans ?_ (ih _ t h))
+      have e1 : IoStep s1 { s1 with log := .io p.reader p.writer (min p.rlen (p.wlen - p.consumed)) :: s1.log,
+                                    states := minsert p.reader .runnable s1.states } := by
+        have := IoStep.insert s1 p.reader .runnable (.inl rfl)
+        exact ⟨this.1, this.2.1, this.2.2.1, this.2.2.2.1, this.2.2.2.2.1, this.2.2.2.2.2.1, this.2.2.2.2.2.2⟩
+      split
+      · exact e1.trans (IoStep.insert _ p.writer .runnable (.inl rfl))
+      · exact e1.trans (IoStep.insert _ p.writer _ (.inr ⟨_, _, _, rfl⟩))
+
+theorem processIo_ioStep (s t : Sch) (h : processIo s = .ok t) : IoStep s t := by
+  unfold processIo at h
+  simp only at h
+  split at h
+  · cases h
+  · rename_i s1 he
+    have h1 := serveClosed_ioStep _ _ s1 he
+    have h2 := servePairs_ioStep _ s1 t h
+    have h0 : IoStep s { s with log := .ioScan (closedReaders s ++ closedWriters s).length (ioPairs s).length :: s.log } :=
+      ⟨rfl, rfl, rfl, rfl, rfl, rfl, fun _ hp => .inl hp⟩
+    exact (h0.trans h1).trans h2
+
 end CkbVerif.SchedBook
